@@ -880,3 +880,7 @@ def check_cases(ctx, prop: str, cases: list[dict]) -> None:
             elif "exc" in i:
                 ctx.violation("the real builder/engine raised " + i["exc"], c, i)
         ctx.compare("Formula", chunk, impl, what="tokens / postfix steps / emitted samples")
+        if ctx.boost > 1 and ctx.violations:
+            # the enlarged search of a broken proof / correspondence has its failing input: no need for the rest
+            ctx.note(f"boosted search stopped after {min(k + CH, len(cases))} of {len(cases)} cases: failing input found")
+            break
